@@ -12,11 +12,11 @@ from vf import pgconc_paging as P
 META = {
     'technique': 'Coq proof (structural induction on the page script + request-prefix invariant over arbitrary call sequences) '
                  'on a hand-written ResultSet/ResponseFuture paging model + step-by-step correspondence with the real classes',
-    'level_text': 'C18_iter / C18_states / C18_states_kth / C18_stops (any access pattern) / C18_stops_iter / C18_list_eq_iter / '
-                  'C18_getitem / C18_eq / C18_manual_eq_iter proved for every page script (unbounded pages, empty pages anywhere); '
+    'level_text': 'C18_iter / C18_iter_across_failures / C18_states / C18_states_kth / C18_stops (any access pattern) / C18_stops_iter / C18_list_eq_iter / '
+                  'C18_getitem / C18_eq / C18_manual_eq_iter proved for every page script (unbounded pages, empty pages anywhere, failing page requests anywhere); '
                   'model tied to cassandra/cluster.py by differential execution after every ResultSet call.',
     'level_note': 'Trusted: Coq kernel, the harness fakes (session/pool/connection/event). Not modelled: continuous paging (DSE), '
-                  'errors while fetching a page, zero-length paging states, Python recursion limit (~990 consecutive empty pages), '
+                  'page-fetch errors other than one delivered to the caller and followed by a repeat of the call, zero-length paging states, Python recursion limit (~990 consecutive empty pages), '
                   'concurrent use of one ResultSet from several threads.',
     'design_ref': 'DESIGN.md section 4, C18',
 }
@@ -25,8 +25,12 @@ SIMPLE_OPS = [('iter',), ('next',), ('fetch',), ('one',), ('current',), ('hasmor
 
 
 def mk_pages(sizes):
+    """sizes: ints (a page with that many rows) or 'F' (the page request arriving at that point fails)"""
     pages, n = [], 1
     for s in sizes:
+        if s == P.FAIL:
+            pages.append(P.FAIL)
+            continue
         pages.append(list(range(n, n + s)))
         n += s
     return pages
@@ -34,17 +38,20 @@ def mk_pages(sizes):
 
 def patterns(pages, rng, nrandom):
     """access patterns for one script: (name, ops)"""
+    script = pages
+    pages = P.script_pages(script)
+    nf = len(script) - len(pages)
     allr = [r for p in pages for r in p]
     n = len(allr)
     np_ = len(pages)
     out = []
-    out.append(('iterate-steps', [('iter',)] + [('next',)] * (n + 2)))
+    out.append(('iterate-steps', [('iter',)] + [('next',)] * (n + nf + 2)))
     out.append(('list', [('list',), ('list',), ('hasmore',)]))
     out.append(('getitem', [('getitem', rng.choice([0, -1, n - 1, n, -n - 1, n // 2])), ('getitem', 0), ('list',), ('iter',)]))
     out.append(('eq', [('eq', allr), ('eq', allr[:-1] if allr else [7]), ('current',)]))
     out.append(('eq-wrong-first', [('eq', allr + [99]), ('eq', allr)]))
     man = [('current',), ('hasmore',)]
-    for _ in range(np_):
+    for _ in range(np_ + nf):
         man += [('fetch',), ('current',), ('pstate',), ('hasmore',)]
     out.append(('manual', man))
     k = rng.randint(0, n)
@@ -70,15 +77,22 @@ def patterns(pages, rng, nrandom):
 
 def oracle(ctx, name, pages, ops, eager, res):
     """The statement, evaluated on what the implementation did.  Returns True if a violation was reported."""
+    script = pages
+    pages = P.script_pages(script)
+    nf = len(script) - len(pages)
+    lead = 0
+    while script[lead] == P.FAIL:
+        lead += 1                          # failures of the very first request: execute() itself is called again
     allr = [r for p in pages for r in p]
     n = len(allr)
-    expect_states = [None] + list(range(len(pages) - 1))
-    case = {'pages': pages, 'ops': [list(o) for o in ops], 'eager': eager, 'pattern': name}
+    expect_states = P.expected_requests(script)
+    case = {'pages': script, 'ops': [list(o) for o in ops], 'eager': eager, 'pattern': name}
+    pages = script                          # for messages
     sent = res['sent']
     tr = res['trace']
     # any access pattern: states in order, nothing after the page without paging state
     if res['bogus'] or len(sent) > len(expect_states):
-        ctx.violation('request.after-last-page', 'pages=%r ops=%s: %d requests for %d pages (carried states %r)' % (pages, name, len(sent), len(pages), sent),
+        ctx.violation('request.after-last-page', 'pages=%r ops=%s: %d requests for %d pages + %d failed requests (carried states %r)' % (pages, name, len(sent), len(pages) - nf, nf, sent),
                       case=case, expected=expect_states, actual=sent, theorem='C18_stops', kind='history')
         return True
     if sent != expect_states[:len(sent)]:
@@ -95,12 +109,17 @@ def oracle(ctx, name, pages, ops, eager, res):
                       theorem=thm, kind='history')
         return True
     if name == 'iterate-steps':
+        # the application keeps calling next() on the same iterator after a failed page fetch
         got = [r[1][1] for r in tr[1:] if r[1][0] == 'row']
         stops = [r[1] for r in tr[1:] if r[1][0] != 'row']
-        if got != allr or stops != [('exc', 'VStop')] * 2:
-            return bad('iterate.rows', 'iteration does not yield the concatenation of the pages', allr, got + stops, 'C18_iter')
+        if got != allr or sorted(stops) != sorted([('exc', 'VError')] * (nf - lead) + [('exc', 'VStop')] * (2 + lead)):
+            return bad('iterate.rows' if nf == 0 else 'iterate.rows-across-failed-fetch',
+                       'iteration (continued after failed page fetches) does not yield the concatenation of the pages', allr, got + stops,
+                       'C18_iter' if nf == 0 else 'C18_iter_across_failures')
         if sent != expect_states:
             return bad('iterate.requests', 'iteration did not request every page exactly once', expect_states, sent, 'C18_states')
+    elif nf and name != 'manual':
+        return False                        # the remaining named readings are stated for scripts without failing requests
     elif name == 'list':
         if tr[0][1] != ('rows', allr):
             return bad('list.rows', 'list(result_set) is not the concatenation of the pages', allr, tr[0][1], 'C18_iter')
@@ -121,16 +140,18 @@ def oracle(ctx, name, pages, ops, eager, res):
         if tr[0][1] != ('bool', False) or tr[1][1] != ('bool', True):
             return bad('eq.ne.iter', '== disagrees with iteration', [False, True], [x[1] for x in tr], 'C18_eq')
     elif name == 'manual':
-        rows = []
+        rows, ok_fetch = [], True
         for op, r in zip(ops, tr):
-            if op[0] == 'current':
+            if op[0] == 'fetch':
+                ok_fetch = r[1] == ('none',)       # a failed fetch_next_page() is simply called again
+            if op[0] == 'current' and ok_fetch:
                 rows += r[1][1]
         if rows != allr:
             return bad('manual.ne.iter', 'manual fetch_next_page loop disagrees with iteration', allr, rows, 'C18_manual_eq_iter')
         # has_more_pages must turn False exactly after the last page
         hm = [r[1][1] for op, r in zip(ops, tr) if op[0] == 'hasmore']
         exp = [k < len(pages) - 1 for k in range(len(pages))] + [False]
-        if hm != exp:
+        if nf == 0 and hm != exp:
             return bad('manual.has_more', 'has_more_pages sequence wrong', exp, hm, 'C18_manual_eq_iter')
     return False
 
@@ -142,11 +163,26 @@ def scripts(ctx):
     for np_ in range(1, maxp + 1):
         for sizes in itertools.product((0, 1, 2), repeat=np_):
             out.append(sizes)
+    # one failing page request at every position of every small script
+    base = list(out)
+    for sizes in base:
+        if len(sizes) <= (3 if quick else 4):
+            for pos in range(len(sizes)):
+                out.append(sizes[:pos] + (P.FAIL,) + sizes[pos:])
     for _ in range(90 if quick else 1500):
         np_ = ctx.rng.randint(4 if quick else 6, 8)
         out.append(tuple(ctx.rng.choice((0, 0, 1, 2, 3)) for _ in range(np_)))
+    for _ in range(90 if quick else 1500):
+        np_ = ctx.rng.randint(2, 7)
+        sc = []
+        for _ in range(np_):
+            while ctx.rng.random() < 0.3 and len(sc) < 12:
+                sc.append(P.FAIL)
+            sc.append(ctx.rng.choice((0, 0, 1, 2, 3)))
+        out.append(tuple(sc))
     # boundary: all empty, long runs of empty pages, one big page
-    out += [(0,) * 8, (0, 0, 0, 0, 0, 0, 0, 1), (3, 0, 0, 0, 0, 0, 0, 0), (1, 0, 1, 0, 1, 0, 1, 0), (12,), (5, 5)]
+    out += [(0,) * 8, (0, 0, 0, 0, 0, 0, 0, 1), (3, 0, 0, 0, 0, 0, 0, 0), (1, 0, 1, 0, 1, 0, 1, 0), (12,), (5, 5),
+            (1, P.FAIL, P.FAIL, P.FAIL, 1), (P.FAIL, P.FAIL, 2, 0, P.FAIL, 0, P.FAIL, 1), (2, P.FAIL, 0)]
     return out, maxp
 
 
@@ -166,7 +202,7 @@ def run(ctx):
     ss, maxp = scripts(ctx)
     ctx.exhaustive = True
     ctx.rule = ('every page-size sequence over {0,1,2} with <= %d pages (exhaustive) + random sequences of up to 8 pages over {0..3} + boundary '
-                'scripts, each x 9 named access patterns (step iteration, list(), [i], ==, manual fetch loop, partial-then-list, '
+                'scripts, scripts with page requests that fail with a rethrown read timeout at every position / at random, each x 9 named access patterns (step iteration, list(), [i], ==, manual fetch loop, partial-then-list, '
                 'fetch while iterating, one/bool) + random mixed call sequences, each with the response delivered before / while the caller '
                 'waits; non-trivial = distinct (script, ops) with >= 2 pages' % maxp)
     cases, meta = [], []
@@ -178,11 +214,12 @@ def run(ctx):
             todo.append((name, pages, ops, ctx.rng.random() < 0.5))
     for name, pages, ops, eager in todo:
         res = P.run_case(pages, ops, eager)
-        ctx.case([pages, [list(o) for o in ops], eager], nontrivial=len(pages) >= 2,
+        ctx.case([pages, [list(o) for o in ops], eager], nontrivial=len(P.script_pages(pages)) >= 2,
                  sample={'pages': pages, 'ops': [o[0] for o in ops], 'sent_paging_states': res['sent'],
                          'returns': [r[1] for r in res['trace']][:8]})
-        ctx.count('pages', len(pages))
+        ctx.count('pages', len(P.script_pages(pages)))
         ctx.count('empty_pages', sum(1 for p in pages if not p))
+        ctx.count('failed_requests', sum(1 for p in pages if p == P.FAIL))
         ctx.count('pattern', name)
         ctx.count('delivery', 'before-wait' if eager else 'during-wait')
         for r in res['trace']:
